@@ -217,10 +217,29 @@ def sysv_hash_form(F, rep, rule="hash-function"):
                 x, y = G.args[1].args[1], G.args[1].args[2]
                 if (x is L and y.op == "const" and y.args[1] == 0xf0000000) or (y is L and x.op == "const" and x.args[1] == 0xf0000000):
                     ok = True
-    rep.require(ok, rule, "sysv_hash:step", w, "h = (h<<4)+c; h ^= (h>>24) & 0xf0  (folded gABI form)",
+    # the gABI reference form: L = (h << 4) + c ; g = L & 0xf000_0000 ; h' = (L ^ (g >> 24)) & !g   - every step clears the top nibble
+    # itself, so the accumulator is returned unmasked (equal to the folded form's masked result: the top nibble only ever leaves by
+    # being shifted out or masked, and never feeds back into the low 28 bits except through this same g >> 24)
+    reference = False
+
+    def _two(t, o):
+        return [(t.args[1], t.args[2]), (t.args[2], t.args[1])] if (t.op == "bin" and t.args[0] == o) else []
+
+    def _is_g(t, L):
+        return any(x is L and m.op == "const" and m.args[1] == 0xf0000000 for x, m in _two(t, "BitAnd"))
+    for X, NG in _two(step, "BitAnd"):
+        if NG.op == "un" and NG.args[0] == "Not":
+            for L, S in _two(X, "BitXor"):
+                if linear_form(L, {h: "h", byte: "c"}) == {"h": 16, "c": 1} and _is_g(NG.args[1], L) and S.op == "bin" and S.args[0] == "Shr" \
+                        and S.args[2].op == "const" and S.args[2].args[1] == 24 and _is_g(S.args[1], L):
+                    ok = reference = True
+    rep.require(ok, rule, "sysv_hash:step", w, "h = (h<<4)+c; h ^= (h>>24) & 0xf0  (folded gABI form)" if not reference
+                else "gABI reference form: h = (h<<4)+c; g = h & 0xf0000000; h ^= g >> 24; h &= !g",
                 "UNRECOGNISED sysv_hash step %s: not the folded gABI form h=(h*16+c); h ^= (h>>24)&0xf0 (an unenumerated form is not judged)" % detail)
     okr = rt is not None and rt.op == "bin" and rt.args[0] == "BitAnd" and ((rt.args[1] is h and rt.args[2].op == "const" and rt.args[2].args[1] == 0x0fffffff)
                                                                            or (rt.args[2] is h and rt.args[1].op == "const" and rt.args[1].args[1] == 0x0fffffff))
+    if reference and rt is h:
+        okr = True       # each step already cleared bits 28..31
     rep.require(okr, rule, "sysv_hash:result", w, "result masked with 0x0fffffff", "sysv_hash returns %s, expected accumulator & 0x0fffffff" % (pp(rt) if rt is not None else None))
 
 
